@@ -127,6 +127,89 @@ def gPolicy (q : Nat → Rat) (n a : Nat) : Rat :=
   let m := gMax q (n - 1)
   if ceG (q a) m.max then 1 / (m.count : Rat) else 0
 
+/-! ### the same three members with the tolerance test of each of the four sites as a parameter (`Gen.C09.greedyCmp…`:
+    which of `checkEqualGeneral` / `checkEqualSmall` the source uses at that site), and in the "maximum first" form
+    (`Gen.C09.greedyMaxFirst`): the true maximum is found with plain `>` and the tie set is `{a | ce (q a) max}` in all three. -/
+
+abbrev Cmp := Rat → Rat → Bool
+
+def gStepC (ce : Cmp) (q : Nat → Rat) (st : GS) (a : Nat) : GS :=
+  if ce (q a) st.best then { st with buf := st.buf ++ [a] }
+  else if st.best < q a then ⟨q a, [a]⟩ else st
+
+def gScanC (ce : Cmp) (q : Nat → Rat) : Nat → GS
+  | 0 => ⟨q 0, [0]⟩
+  | k+1 => gStepC ce q (gScanC ce q k) (k + 1)
+
+def gProbAuxC (ce : Cmp) (q : Nat → Rat) (a : Nat) : Nat → Option Nat
+  | 0 => some 0
+  | k+1 => match gProbAuxC ce q a k with
+    | none => none
+    | some c => if ce (q k) (q a) then some (c + 1) else if q a < q k then none else some c
+
+def gmStepC (ce : Cmp) (q : Nat → Rat) (st : GM) (a : Nat) : GM :=
+  if ce (q a) st.max then { st with count := st.count + 1 }
+  else if st.max < q a then ⟨q a, 1⟩ else st
+
+def gMaxC (ce : Cmp) (q : Nat → Rat) : Nat → GM
+  | 0 => ⟨q 0, 1⟩
+  | k+1 => gmStepC ce q (gMaxC ce q k) (k + 1)
+
+/-- plain maximum of `q 0 … q k` (`>` scan / Eigen `maxCoeff`) -/
+def maxTo (q : Nat → Rat) : Nat → Rat
+  | 0 => q 0
+  | k+1 => if maxTo q k < q (k + 1) then q (k + 1) else maxTo q k
+
+/-- the tie list of the "maximum first" form -/
+def tieList (ce : Cmp) (q : Nat → Rat) (n : Nat) : List Nat := (List.range n).filter (fun a => ce (q a) (maxTo q (n - 1)))
+
+/-- the greedy wrapper as the source has it: `mf` = maximum-first form; `cS cP c1 c2` = tolerance test used by `sampleAction`,
+    `getActionProbability`, first and second pass of `getPolicy` -/
+structure GForm where
+  mf : Bool
+  cS : Cmp
+  cP : Cmp
+  c1 : Cmp
+  c2 : Cmp
+
+def GForm.buf (f : GForm) (q : Nat → Rat) (n : Nat) : List Nat :=
+  if f.mf then tieList f.cS q n else (gScanC f.cS q (n - 1)).buf
+
+def GForm.sample (f : GForm) (q : Nat → Rat) (n : Nat) (ws : List Nat) : Option Nat :=
+  let buf := f.buf q n
+  match lemire buf.length ws with
+  | some (k, _) => some (buf.getD k 0)
+  | none => none
+
+def GForm.prob (f : GForm) (q : Nat → Rat) (n a : Nat) : Rat :=
+  if f.mf then (if f.cP (q a) (maxTo q (n - 1)) then 1 / ((tieList f.cP q n).length : Rat) else 0)
+  else match gProbAuxC f.cP q a n with
+    | none => 0
+    | some c => 1 / (c : Rat)
+
+def GForm.policy (f : GForm) (q : Nat → Rat) (n a : Nat) : Rat :=
+  if f.mf then (if f.c2 (q a) (maxTo q (n - 1)) then 1 / ((tieList f.c1 q n).length : Rat) else 0)
+  else
+    let m := gMaxC f.c1 q (n - 1)
+    if f.c2 (q a) m.max then 1 / (m.count : Rat) else 0
+
+/-- the source as first read: running maximum, `checkEqualGeneral` at all four sites -/
+def GForm.asWritten : GForm := ⟨false, ceG, ceG, ceG, ceG⟩
+/-- the repaired source: maximum first, `checkEqualGeneral` at all four sites -/
+def GForm.repaired : GForm := ⟨true, ceG, ceG, ceG, ceG⟩
+
+/-! ### deciders evaluated by the driver on every greedy-type line (`Props/C09k`: they decide the hypotheses of the theorems) -/
+
+/-- `checkEqualGeneral` is transitive on the row (with reflexivity and symmetry: an equivalence) — "clustered" rows: exact ties,
+    ties inside the library tolerance, everything else separated.  The hypothesis of `greedy_classes` (`clsB_iff`). -/
+def clsB (q : Nat → Rat) (n : Nat) : Bool :=
+  (List.range n).all (fun i => (List.range n).all (fun j => (List.range n).all (fun k =>
+    !(ceG (q i) (q j) && ceG (q j) (q k)) || ceG (q i) (q k))))
+
+/-- the tie relation is the same before and after the shift -/
+def sameRelB (q : Nat → Rat) (c : Rat) (n : Nat) : Bool :=
+  (List.range n).all (fun i => (List.range n).all (fun j => ceG (q i) (q j) == ceG (q i + c) (q j + c)))
+
 /-! ## QSoftmaxPolicyWrapper — `e a` is the implementation's `exp(q a / T)` when finite, `inf a` says it is `+inf` -/
 
 def smProb (e : Nat → Rat) (inf : Nat → Bool) (n a : Nat) : Rat :=
@@ -245,6 +328,24 @@ def thInit (lowest : Bool) : Option Rat := if lowest then none else some dblMin
 
 def thompson (lowest : Bool) (cnt : Nat → Nat) (val : Nat → Rat) (n : Nat) : Nat :=
   thLoop cnt val n 0 0 (thInit lowest)
+
+/-! ## Monte-Carlo tables of ThompsonSamplingPolicy / TopTwoThompsonSamplingPolicy / T3CPolicy:
+    `getPolicy` : `retval[sampleAction()] += 1.0` (`trials` times), then `retval /= retval.sum()`;
+    `getActionProbability(a)` : `selected / trials` with `selected` = number of the `trials` fresh samples equal to `a`.
+    `cnt a` = how often `a` was sampled. -/
+
+def mcTable (n : Nat) (cnt : Nat → Nat) : Nat → Rat := fun a => (cnt a : Rat) / sumTo n (fun i => (cnt i : Rat))
+def mcQuery (trials selected : Nat) : Rat := (selected : Rat) / (trials : Rat)
+
+/-! ## Factored (joint-action) policies: `Factored::Bandit::EpsilonPolicy::getActionProbability` =
+    `(1 - eps) * wrapped(a) + eps * (1 / factorSpace(A))` over a deterministic wrapped policy that plays `g`
+    (`eps = 0`: QGreedyPolicy / SingleActionPolicy / LLRPolicy themselves, `eps = 1`: RandomPolicy). `N` = size of the joint space. -/
+
+def jointEps (eps : Rat) (N : Nat) (g a : List Nat) : Rat := (1 - eps) * (if a = g then 1 else 0) + eps * (1 / (N : Rat))
+
+/-- `recommendAction` of TopTwoThompson / T3C: Eigen `maxCoeff(&idx)` — first index of the maximum -/
+def recommend (mean : Nat → Rat) (n : Nat) : Nat :=
+  (List.range n).foldl (fun b i => if mean b < mean i then i else b) 0
 
 /-- `std::find` on the list of allowed actions: index of the first occurrence -/
 def findIdx (a : Nat) : List Nat → Option Nat
